@@ -20,7 +20,7 @@ import (
 
 // C19 — trust only by exact certificate match, leaf-most first.
 //
-// Alphabet: a pool of eight look-alike certificates. Every chain of length
+// Alphabet: a pool of nine look-alike certificates. Every chain of length
 // 1..L and every trust list of length 0..L over the pool (with repetition)
 // is enumerated; the reference is a byte comparison of DER.
 
@@ -53,7 +53,7 @@ func c19Init(mc.Tier) (int, error) {
 	L3 := pki.Issue(t3, pki.K("p256-e"), inter, nil)  // same subject + key + serial, other validity
 	L4 := pki.Issue(lt, pki.K("p256-f"), inter, nil)  // same subject + serial, other key
 	L5 := pki.Issue(lt, pki.K("p256-e"), interB, nil) // cross-signed: same subject, key, serial; other issuer key
-	c19.names = []string{"L", "L-otherSerial", "L-otherValidity", "L-otherKey", "L-crossSigned", "I", "R", "L-sameContentOtherSignatureValue"}
+	c19.names = []string{"L", "L-otherSerial", "L-otherValidity", "L-otherKey", "L-crossSigned", "I", "R", "L-sameContentOtherSignatureValue", "L-sameContentAndSignatureValueOtherEncoding"}
 	for _, c := range []*pki.Cert{L, L2, L3, L4, L5, inter, rootA} {
 		c19.der = append(c19.der, c.DER)
 	}
@@ -65,6 +65,17 @@ func c19Init(mc.Tier) (int, error) {
 	c19.der = append(c19.der, L6)
 	if x6, err := x509.ParseCertificate(L6); err != nil || !bytes.Equal(x6.RawTBSCertificate, L.X.RawTBSCertificate) || bytes.Equal(x6.Signature, L.X.Signature) || x6.CheckSignatureFrom(inter.X) != nil {
 		return 0, fmt.Errorf("pool entry with another signature value is not what it should be: %v", err)
+	}
+	// the same to-be-signed content and the same signature value in another encoding: the signature BIT STRING written with one unused
+	// bit (content shifted left by one bit; crypto/x509 right-aligns it, so Certificate.Signature reads the same). Other bytes: another
+	// certificate as far as an exact match is concerned.
+	L7, err := c19OtherBitStringEncoding(L.DER)
+	if err != nil {
+		return 0, err
+	}
+	c19.der = append(c19.der, L7)
+	if x7, err := x509.ParseCertificate(L7); err != nil || !bytes.Equal(x7.RawTBSCertificate, L.X.RawTBSCertificate) || !bytes.Equal(x7.Signature, L.X.Signature) || bytes.Equal(x7.Raw, L.X.Raw) || x7.CheckSignatureFrom(inter.X) != nil {
+		return 0, fmt.Errorf("pool entry with the signature in another encoding is not what it should be: %v", err)
 	}
 	// forge self-check: all DER distinct; look-alikes share what they claim to share
 	n := 0
@@ -105,6 +116,32 @@ func c19OtherSignatureValue(der []byte) ([]byte, error) {
 		return nil, err
 	}
 	outer.Sig = asn1.BitString{Bytes: sig, BitLength: 8 * len(sig)}
+	return asn1.Marshal(outer)
+}
+
+// c19OtherBitStringEncoding re-assembles a certificate with its signature BIT STRING declared one bit shorter and shifted left by one
+// bit (possible when the top bit of the signature is clear, as it is for an ECDSA signature, which starts with the SEQUENCE tag 0x30).
+func c19OtherBitStringEncoding(der []byte) ([]byte, error) {
+	var outer struct {
+		TBS asn1.RawValue
+		Alg asn1.RawValue
+		Sig asn1.BitString
+	}
+	if rest, err := asn1.Unmarshal(der, &outer); err != nil || len(rest) != 0 {
+		return nil, fmt.Errorf("certificate outer structure: %v", err)
+	}
+	sig := outer.Sig.Bytes
+	if outer.Sig.BitLength != 8*len(sig) || len(sig) == 0 || sig[0]&0x80 != 0 {
+		return nil, errors.New("signature bit string cannot be shifted")
+	}
+	shifted := make([]byte, len(sig))
+	for i := range sig {
+		shifted[i] = sig[i] << 1
+		if i+1 < len(sig) {
+			shifted[i] |= sig[i+1] >> 7
+		}
+	}
+	outer.Sig = asn1.BitString{Bytes: shifted, BitLength: 8*len(sig) - 1}
 	return asn1.Marshal(outer)
 }
 
@@ -323,7 +360,7 @@ func init() {
 		ID:        "C19",
 		Title:     "Trust is established only by an exact certificate match, leaf-most first",
 		DesignRef: "DESIGN.md §4 C19",
-		Rule: "Every chain of length 1..L and every trust list of length 0..L (quick L=3, thorough L=4) over a pool of eight look-alike certificates " +
+		Rule: "Every chain of length 1..L and every trust list of length 0..L (quick L=3, thorough L=4) over a pool of nine look-alike certificates " +
 			"(same subject+key re-issued with another serial / validity, same subject other key, cross-signed, intermediate, root), plus nil signer info, empty chain, " +
 			"and the 4x3 table scheme x signing time for AuthenticSigningTime; each pair is one call of the real VerifyAuthenticity compared with a DER-equality reference.",
 		Assumptions: []string{"look-alikes beyond the eight pool members are not enumerated", "certificate equality is decided on DER by the reference; the pool self-check asserts all eight DER encodings differ"},
